@@ -649,6 +649,21 @@ class Facts:
                     return b
         return None
 
+    def callee_body_impl(self, term, crate="cucumber"):
+        """callee_body, or - for a trait call the compiler could not resolve in generic code - the unique crate-local impl
+        of that trait for the receiver's ADT (`<FailOnSkipped<T> as From<T>>::from` -> the body of that impl's `from`)."""
+        cb = self.callee_body(term, crate)
+        if cb is not None:
+            return cb
+        f = op_fn(term["func"])
+        if not f or not f.get("trait") or not f.get("self"):
+            return None
+        adt = re.sub(r"<.*$", "", f["self"].lstrip("&").replace("mut ", ""))
+        meth = f["path"].rsplit("::", 1)[-1]
+        c = [b for b in self.bodies.values() if b.crate == crate and (b.impl or {}).get("trait") == f["trait"]
+             and (b.impl or {}).get("self_adt") == adt and b.name.endswith("::" + meth) and b.kind in ("Fn", "AssocFn")]
+        return c[0] if len(c) == 1 else None
+
     def callers_of(self, body):
         if self._callers is None:
             cs = defaultdict(list)
